@@ -48,7 +48,9 @@ LEVEL = 'exploration'
 RULE = ('cases = (machine class str|bytes|promote|bytes-fsm, regex AST, input, chunking). Exhaustive tier: every AST up to '
         'the size bound over atoms {a, b, ., [^a], [ab]} with *, +, ?, {2}, {1,2}, {2,}, cat, alt  x  every string over '
         '{a,b,c} up to the length bound, on cpppo.regex (input in one piece) and on cpppo.regex_bytes (one symbol per '
-        'chunk). Random tier: Hypothesis ASTs up to 12 nodes over {a,b,c,π,€} (str) or one of the bytes '
+        'chunk); and for S in {π, €}: every AST up to 3 (thorough 4) nodes over {S, ., [^S]} x every UTF-8 text over {a,S,S\'} up to 4 '
+        'characters (also cut inside the last character) and every AST over {S} x every short string over the bytes of S,S\', on '
+        'cpppo.regex_bytes. Random tier: Hypothesis ASTs up to 12 nodes over {a,b,c,π,€} (str) or one of the bytes '
         'profiles (also regex_bytes built from a greenery.fsm without an anything-else symbol), inputs up to 24 symbols produced by a walk that mostly follows viable symbols of the reference '
         'derivative and then leaves the language, random chunkings (cuts inside multi-byte characters included). '
         'non-trivial = the expected consumed prefix is a proper non-empty prefix of the input, or a viable but '
@@ -65,7 +67,7 @@ ASSUMPTIONS = [
     'multi-byte symbol with another symbol are documented as not encodable (AssertionError at construction is accepted)',
     'trusted base: vp/regexref.py, self-tested at start against re.fullmatch on the shared syntax (accept and viability, str and bytes)',
 ]
-MIN_EVALUATIONS = {'quick': 1600000, 'thorough': 40000000}
+MIN_EVALUATIONS = {'quick': 1700000, 'thorough': 44000000}
 
 CTX = 'r'
 EX_ATOMS = [['lit', 'a'], ['lit', 'b'], ['dot'], ['cls', ['a'], True], ['cls', ['a', 'b'], False]]
@@ -506,6 +508,35 @@ def shard_exhaustive(job):
     return s
 
 
+def shard_exhaustive_mb(job):
+    """Multi-byte symbol S: every AST up to `size` nodes over atoms {S, ., [^S]} x every text over {a, S, S'} up to
+    `length` characters (UTF-8, also with the last byte cut off), and every AST over {S} alone x every byte string over
+    the bytes of S and S' up to length+1; regex_bytes, one byte per chunk and in one piece alternately."""
+    sym, size, length, idx, nsh = job
+    s = Stats()
+    sib = sibling(sym)
+    wild = R.enum_upto(size, [['lit', sym], ['dot'], ['cls', [sym], True]], EX_REPS)
+    pure = R.enum_upto(size, [['lit', sym]], EX_REPS)
+    texts = set()
+    for w in R.strings_upto(['a', sym, sib], length):
+        b = ''.join(w).encode('utf-8')
+        texts.add(b)
+        if b:
+            texts.add(b[:-1])
+    texts = sorted(texts)
+    raw = [bytes(w) for w in R.strings_upto(sorted(set(sym.encode('utf-8') + sib.encode('utf-8'))), length + 1)]
+    n = 0
+    for asts, inputs in ((wild, texts), (pure, raw)):
+        for i, ast in enumerate(asts):
+            if i % nsh != idx:
+                continue
+            for b in inputs:
+                n += 1
+                cuts = list(range(1, len(b))) if n % 2 else []
+                common.run_pred(pred_run, {'mode': 'bytes', 'ast': ast, 'input': common.hx(b), 'cuts': cuts}, s, 'run')
+    return s
+
+
 # ------------------------------------------------------------------------------------------------
 # random tier
 
@@ -670,6 +701,12 @@ def run(tier, seed):
         'all %d ASTs with <= %d nodes (atoms a b . [^a] [ab]; * + ? {2} {1,2} {2,}; cat; alt) x all %d strings over {a,b,c} '
         'of length <= %d, on cpppo.regex (input in one piece) and on cpppo.regex_bytes (one symbol per chunk)'
         % (n_ast, size, sum(3 ** i for i in range(length + 1)), length))
+    mb_size, mb_len = (4, 4) if thorough else (3, 4)
+    common.parallel(shard_exhaustive_mb, [(sym, mb_size, mb_len, i, 8) for sym in ('π', '€') for i in range(8)], stats=stats)
+    stats.exhaustive['multi-byte-symbol'] = (
+        'for S in {π (2 bytes), € (3 bytes)}: all ASTs with <= %d nodes over atoms {S, ., [^S]} x all texts over {a,S,S\'} of <= %d '
+        'characters as UTF-8 (whole and with the last byte removed), and all ASTs over {S} x all strings over the bytes of S,S\' '
+        'of length <= %d; cpppo.regex_bytes, alternately in one piece / one byte per chunk' % (mb_size, mb_len, mb_len + 1))
     n = 12000 if thorough else 700
     shards = 32 if thorough else 16
     common.parallel(shard_random, [(seed, i, n) for i in range(shards)], stats=stats)
